@@ -161,6 +161,29 @@ let do_spec args =
        attempt (300 + 40 * List.length cs))
   | _ -> "BADARGS"
 
+let do_term args =
+  match args with
+  | [kind; p1; p2; input] ->
+    let st = init_state (unhex input) in
+    let fin r f = match r with
+      | TOk (v, st') -> Printf.sprintf "OK\t%d\t%s" (int_of_nat st'.off) (f v)
+      | TErr e -> Printf.sprintf "ERR\t%d\t%s" (int_of_nat e.e_pos) (spec_str e.e_spec)
+      | TPanic -> "PANIC"
+      | TSplit -> "PANIC" in
+    let num v = string_of_int (int_of_n v) in
+    let dash _ = "-" in
+    (match kind with
+     | "char" -> fin (parse_char scfg_run st) num
+     | "ws" -> fin (parse_Whitespace st) dash
+     | "eoi" -> fin (parse_end_of_input scfg_run st) dash
+     | "lit" -> fin (parse_string_literal scfg_run st (unhex p1)) dash
+     | "ilit" -> fin (parse_string_literal_insensitive scfg_run tcfg_run st (unhex p1)) dash
+     | "clit" -> fin (parse_character_literal scfg_run tcfg_run st (n_of_int (int_of_string p1))) num
+     | "iclit" -> fin (parse_character_literal_insensitive scfg_run tcfg_run st (n_of_int (int_of_string p1))) num
+     | "range" -> fin (parse_character_range scfg_run tcfg_run st (n_of_int (int_of_string p1)) (n_of_int (int_of_string p2))) num
+     | _ -> "BADKIND")
+  | _ -> "BADARGS"
+
 let pretty args =
   match args with
   | [text; pos; _] ->
@@ -180,6 +203,7 @@ let () =
            | ["grammar"; gid; sx] -> Hashtbl.replace grammars gid (grammar_of_sexp (Sexp.parse sx)); "SET"
            | "parse" :: args -> do_parse args
            | "spec" :: args -> do_spec args
+           | "term" :: args -> do_term args
            | other :: _ -> "UNKNOWN\t" ^ other
            | [] -> "EMPTY"
          with
